@@ -856,6 +856,10 @@ class Oracle(stateful.Stateful):
                 if hps.is_active(hp):  # Only active params in `values`.
                     hps.values[hp.name] = hp.random_sample(self._seed_state)
                     self._seed_state += 1
+            # A later entry of the same name can overwrite the value an earlier
+            # entry's condition was checked against: drop what became inactive
+            # before looking the values up among the tried ones.
+            hps.ensure_active_values()
             # Keep trying until the set of values is unique,
             # or until we exit due to too many collisions.
             if self._duplicate(hps.values):
